@@ -245,9 +245,15 @@ def check(prog, res, tier):
                 good = isinstance(x, SeqV) and len(x.segs) == 1 and isinstance(x.segs[0], Sl) and x.segs[0].src is row and \
                     st.decide_eq0(x.segs[0].lo - lo) is True and st.decide_eq0(x.segs[0].hi - hi) is True
                 if not good:
-                    fails.append(definite(f'{tag} row: {name} is {x!r}, expected row[{lo}:{hi}]'))
+                    recognised = isinstance(x, SeqV) and len(x.segs) == 1 and isinstance(x.segs[0], Sl) and x.segs[0].src is row
+                    if recognised or (x is None and not (v.open or v.sym_stores or getattr(v, 'merged', None))):
+                        fails.append(definite(f'{tag} row: {name} is {x!r}, expected row[{lo}:{hi}]'))
+                    else:
+                        # the row dict was built in a way this rule does not see through (dict(zip(...)), update(generator)...)
+                        fails.append(soft(f'{tag} row: {name} is {x!r}: the row dictionary is not fully known'))
             if 'table_id' not in v.items:
-                fails.append(definite('table_id column missing'))
+                fails.append(definite('table_id column missing') if not (v.open or v.sym_stores or getattr(v, 'merged', None))
+                             else soft('table_id column not seen in a row dictionary that is not fully known'))
             # every configured column, via _get_param_field on this row
             if not it.user.get('gcalls') and mode == 'unroll':
                 pass
